@@ -80,6 +80,7 @@ def streams(tier, rng, P, only=None, cases=None):
             form = rng.choice(["rest", "note", "noten", "l", "bang_time", "bang_arg", "after_res", "nol", "nol", "div", "div", "divin", "chord", "chord"])
             text, s, k = gen_expr(rng, True, layout=(form in ("rest", "note", "l") and rng.random() < 0.4))
             tb = rng.choice([48, 96, 120, 480, 960])
+            tbw = tb      # the number written after TimeBase (form `nol` also writes numbers outside 48..32767: the time base in effect is the clamped one)
             dtext, ds, _ = gen_expr(rng, True)
             if form == "rest": src = "TimeBase(%d) l%s r%s n60" % (tb, dtext, text)
             elif form == "note": src = "TimeBase(%d) l%s c%s n60" % (tb, dtext, text)
@@ -102,7 +103,8 @@ def streams(tier, rng, P, only=None, cases=None):
                 off = sum(r_[1] for r_ in res)
             elif form == "nol":
                 # no `l` command at all: the default length is a quarter note of the time base in effect, on the first track too
-                src = "%s r%s n60" % (rng.choice(["TimeBase(%d)", "TimeBase=%d", "TIMEBASE(%d)", "TimeBase(96) TimeBase(%d)"]) % tb, text); ds = None
+                if rng.random() < 0.3: tbw = rng.choice([24, 1, 47, 40000, 32768, 65536]); tb = min(max(48, tbw), 32767)
+                src = "%s r%s n60" % (rng.choice(["TimeBase(%d)", "TimeBase=%d", "TIMEBASE(%d)", "TimeBase(96) TimeBase(%d)"]) % tbw, text); ds = None
             elif form == "l": src = "TimeBase(%d) l%s r n60" % (tb, text); ds = None
             elif form == "bang_time": src = "TimeBase(%d) TIME(!%s) n60" % (tb, text); ds = "bang"
             else: src = "TimeBase(%d) TIME=!%s; n60" % (tb, text); ds = "bang"
